@@ -137,7 +137,22 @@ def run_job(spec):
                     out['unsat'] += 1
                     continue
                 nontrivial = True
-                r, m = solve.prove(cons, gterm, timeout_s=spec.get('query_timeout_s', 20))
+                def extract(m, gname=gname, kregion=kregion):
+                    rec = dict(prop=spec['prop'], harness=spec['harness'], params=spec['params'],
+                               goal=gname, values=_model_values(m, ctx.inputs),
+                               decisions=eng.decision_string(), regions=[], known_region=kregion)
+                    for rn, rt in ctx.regions.items():
+                        try:
+                            if z3.is_true(m.eval(rt, model_completion=True)):
+                                rec['regions'].append(rn)
+                        except Exception:
+                            pass
+                    return rec
+                _t0 = time.time()
+                r, rec = solve.prove_isolated(cons, gterm, spec.get('query_timeout_s', 20), extract, ctx.hints,
+                                                 key=(spec['harness'], gname.split('[')[0]))
+                if os.environ.get('SYMX_DEBUG'):
+                    print('   goal %-40s %-8s %.2fs' % (gname, r, time.time() - _t0), flush=True)
                 if r == 'unsat':
                     out['unsat'] += 1
                     nx += 1
@@ -147,23 +162,6 @@ def run_job(spec):
                         out['xcheck'][xr] += 1
                 elif r == 'sat':
                     out['sat'] += 1
-                    if ctx.hints:
-                        # prefer a counterexample inside the float-friendly box declared by the harness
-                        r2, m2 = solve._run_z3(cons + list(ctx.hints) + [z3.Not(gterm)], 5000)
-                        if r2 == 'sat':
-                            m = m2
-                    rec = dict(prop=spec['prop'], harness=spec['harness'], params=spec['params'],
-                               goal=gname, values=_model_values(m, ctx.inputs),
-                               decisions=eng.decision_string(),
-                               regions=[], known_region=kregion)
-                    for rn, rt in ctx.regions.items():
-                        try:
-                            if z3.is_true(m.eval(rt, model_completion=True)):
-                                rec['regions'].append(rn)
-                        except Exception:
-                            pass
-                    # up to 3 alternative models (in case float replay of the first one is degenerate)
-                    rec['alt_values'] = []
                     if len(out['cex']) < 40:
                         out['cex'].append(rec)
                 else:
@@ -278,6 +276,70 @@ def replay_batch_main(lst):
 
 # ------------------------------------------------------------------------------------------
 
+def _job_entry(spec, q):
+    try:
+        q.put(run_job(spec))
+    except BaseException as e:      # noqa
+        q.put(dict(spec=spec, paths=0, vacuous_paths=0, aborted=0, goals=0, unsat=0, sat=0, unknown=0,
+                   nontrivial_paths=0, covers=[], cex=[], samples=[], errors=['worker crashed: %r' % (e,)],
+                   path_cap_hit=False, xcheck=dict(n=0, agree=0, unknown=0, contradict=0), witnesses=[],
+                   unknown_goals=[], wall_s=0.0))
+
+
+def _schedule(specs, njobs):
+    """run every job in its own (killable) process, at most njobs at a time"""
+    import multiprocessing as mp
+    import queue as _q
+    ctxm = mp.get_context('spawn')
+    pending = list(specs)
+    running = {}
+    results = []
+    q = ctxm.Queue()
+
+    def report(r):
+        s = r['spec']
+        print('  job %-24s %-44s shard=%-8s paths=%d goals=%d unsat=%d sat=%d unknown=%d %.1fs%s' % (
+            s['harness'], json.dumps(s['params'], sort_keys=True)[:44], s.get('shard'),
+            r['paths'], r['goals'], r['unsat'], r['sat'], r['unknown'], r['wall_s'],
+            ' ERR' if r['errors'] else ''), flush=True)
+    nid = 0
+    while pending or running:
+        while pending and len(running) < njobs:
+            spec = pending.pop(0)
+            spec['_id'] = nid
+            p = ctxm.Process(target=_job_entry, args=(spec, q), daemon=False)
+            p.start()
+            running[nid] = (p, spec, time.time())
+            nid += 1
+        try:
+            r = q.get(timeout=1.0)
+            jid = r['spec'].get('_id')
+            if jid in running:
+                running[jid][0].join(timeout=10)
+                del running[jid]
+            results.append(r)
+            report(r)
+        except _q.Empty:
+            pass
+        now = time.time()
+        for jid, (p, spec, t0) in list(running.items()):
+            limit = spec.get('job_timeout_s', 3600) + 60
+            if now - t0 > limit or (not p.is_alive() and now - t0 > 5 and q.empty()):
+                dead = not p.is_alive()
+                if not dead:
+                    p.kill()
+                p.join(timeout=10)
+                del running[jid]
+                r = dict(spec=spec, paths=0, vacuous_paths=0, aborted=0, goals=0, unsat=0, sat=0, unknown=0,
+                         nontrivial_paths=0, covers=[], cex=[], samples=[],
+                         errors=['worker %s' % ('died without a result' if dead else 'killed: job time limit %ds' % limit)],
+                         path_cap_hit=False, xcheck=dict(n=0, agree=0, unknown=0, contradict=0), witnesses=[],
+                         unknown_goals=[], wall_s=now - t0)
+                results.append(r)
+                report(r)
+    return results
+
+
 def _src_hash(qualname):
     """hash of the current source of a function/class in /repo"""
     try:
@@ -351,20 +413,10 @@ def main(argv=None):
                 specs.append(dict(prop=prop, harness=hname, params=params,
                                   shard=[i, shards] if shards > 1 else None,
                                   query_timeout_s=qto, xcheck_every=25,
-                                  job_timeout_s=1500 if tier == 'quick' else 6 * 3600))
-    results = []
-    import multiprocessing
-    with ProcessPoolExecutor(max_workers=min(args.jobs, max(1, len(specs))),
-                             mp_context=multiprocessing.get_context('spawn')) as ex:
-        futs = {ex.submit(run_job, s): s for s in specs}
-        for f in as_completed(futs):
-            r = f.result()
-            results.append(r)
-            s = r['spec']
-            print('  job %-28s %-40s shard=%s paths=%d goals=%d unsat=%d sat=%d unknown=%d %.1fs%s' % (
-                s['harness'], json.dumps(s['params'], sort_keys=True)[:40], s.get('shard'),
-                r['paths'], r['goals'], r['unsat'], r['sat'], r['unknown'], r['wall_s'],
-                ' ERR' if r['errors'] else ''), flush=True)
+                                  job_timeout_s=900 if tier == 'quick' else 3 * 3600))
+    results = _schedule(specs, args.jobs)
+    for r in results:
+        pass
 
     known = load_known()
     errors = [e for r in results for e in r['errors']]
